@@ -14,6 +14,10 @@
 (*   "MemoScore"    Score() memoised in a package-level cache              *)
 (*   "SharedNames"  one names set shared by all objects of a constructor   *)
 (*   "SharedScratch" Encode() formatting into a package-level buffer       *)
+(*   "TemplateCache" export keeping the last parsed template in a          *)
+(*                  package-level variable (check-then-use)                *)
+(*   "PoolDoublePut" Encode() buffers recycled through a pool into which   *)
+(*                  the error path puts its buffer twice                   *)
 (*                                                                         *)
 (* State: pc[g], own[g] (tokens decoded so far, as a sequence), dup[g]     *)
 (* (a duplicate was reported), out[g] (results), shared pieces, and the    *)
@@ -28,7 +32,9 @@ CONSTANTS G,           \* set of goroutine ids (strings)
           Variant      \* "pure" | "LazyTable" | "MemoScore" | "SharedNames" | "SharedScratch"
 
 Tokens == <<"AV", "AC", "PR">>          \* the tokens each goroutine decodes into its own object
-Progs == [g \in G |-> <<"decode", "score", "encode">>]
+\* g1 also encodes an invalid (fresh) object first: the error path of Encode
+Progs == [g \in G |-> IF g = "g1" THEN <<"encodebad", "decode", "score", "encode", "export">>
+                                   ELSE <<"decode", "score", "encode", "export">>]
 
 VARIABLES pc,        \* [g -> index into Progs[g], 1..Len+1]
           phase,     \* [g -> "idle" | "in"]   (inside a step: between Begin and End)
@@ -39,9 +45,12 @@ VARIABLES pc,        \* [g -> index into Progs[g], 1..Len+1]
           tableInit, \* the lazily filled table has been written ("LazyTable")
           memo,      \* package-level score cache: set of keys ("MemoScore")
           scratch,   \* package-level buffer owner ("SharedScratch"): goroutine currently formatting, or "none"
+          tcache,    \* "TemplateCache": template text held by the package-level cache, or "none"
+          pool,      \* "PoolDoublePut": multiset of free buffer ids, as a sequence
+          buf,       \* [g -> buffer id the goroutine is formatting into, 0 = none]
           acc,       \* [g -> set of <<location, "r"|"w">>] accesses of the step g is inside
           race       \* a data race has been observed
-vars == <<pc, phase, tok, names, dup, out, tableInit, memo, scratch, acc, race>>
+vars == <<pc, phase, tok, names, dup, out, tableInit, memo, scratch, tcache, pool, buf, acc, race>>
 
 Locs(g) == IF Variant = "SharedNames" THEN "names:shared" ELSE "names:" \o g
 
@@ -50,13 +59,17 @@ StepAccesses(g) ==
   LET op == Progs[g][pc[g]]
   IN CASE op = "decode" -> {<<Locs(g), "w">>, <<"table", IF Variant = "LazyTable" /\ ~tableInit THEN "w" ELSE "r">>}
        [] op = "score" -> {<<"sharedobj", "r">>, <<"table", "r">>} \cup (IF Variant = "MemoScore" THEN {<<"memo", "w">>} ELSE {})
-       [] op = "encode" -> {<<"sharedobj", "r">>} \cup (IF Variant = "SharedScratch" THEN {<<"scratch", "w">>} ELSE {})
+       [] op \in {"encode", "encodebad"} ->
+            {<<"sharedobj", "r">>} \cup (IF Variant = "SharedScratch" THEN {<<"scratch", "w">>} ELSE {})
+              \cup (IF Variant = "PoolDoublePut" THEN {<<"buf" \o ToString(IF pool = <<>> THEN 9 ELSE pool[1]), "w">>} ELSE {})
+       [] op = "export" -> {<<"sharedobj", "r">>} \cup (IF Variant = "TemplateCache" THEN {<<"tcache", "w">>} ELSE {})
 
 Conflict(a, b) == a[1] = b[1] /\ (a[2] = "w" \/ b[2] = "w")
 
 Init == /\ pc = [g \in G |-> 1] /\ phase = [g \in G |-> "idle"] /\ tok = [g \in G |-> 0]
         /\ names = [g \in G \cup {"shared"} |-> {}] /\ dup = [g \in G |-> FALSE]
         /\ out = [g \in G |-> <<>>] /\ tableInit = FALSE /\ memo = {} /\ scratch = "none"
+        /\ tcache = "none" /\ pool = <<1>> /\ buf = [g \in G |-> 0]
         /\ acc = [g \in G |-> {}] /\ race = FALSE
 
 Begin(g) ==
@@ -65,7 +78,13 @@ Begin(g) ==
      IN /\ acc' = [acc EXCEPT ![g] = A]
         /\ race' = (race \/ \E h \in G \ {g} : phase[h] = "in" /\ \E a \in A, b \in acc[h] : Conflict(a, b))
   /\ phase' = [phase EXCEPT ![g] = "in"]
-  /\ IF Progs[g][pc[g]] = "encode" /\ Variant = "SharedScratch" THEN scratch' = g ELSE UNCHANGED scratch
+  /\ IF Progs[g][pc[g]] \in {"encode", "encodebad"} /\ Variant = "SharedScratch" THEN scratch' = g ELSE UNCHANGED scratch
+  /\ IF Progs[g][pc[g]] = "export" /\ Variant = "TemplateCache" THEN tcache' = g ELSE UNCHANGED tcache
+  \* take a buffer from the pool (a fresh one, id 9, when it is empty)
+  /\ IF Progs[g][pc[g]] \in {"encode", "encodebad"} /\ Variant = "PoolDoublePut"
+        THEN IF pool = <<>> THEN buf' = [buf EXCEPT ![g] = 9] /\ UNCHANGED pool
+                            ELSE buf' = [buf EXCEPT ![g] = pool[1]] /\ pool' = Tail(pool)
+        ELSE UNCHANGED <<pool, buf>>
   /\ UNCHANGED <<pc, tok, names, dup, out, tableInit, memo>>
 
 End(g) ==
@@ -79,17 +98,30 @@ End(g) ==
                   /\ tok' = [tok EXCEPT ![g] = tok[g] + 1]
                   /\ pc' = [pc EXCEPT ![g] = IF tok[g] + 1 = Len(Tokens) THEN pc[g] + 1 ELSE pc[g]]
                   /\ tableInit' = TRUE
-                  /\ UNCHANGED <<out, memo, scratch>>
+                  /\ UNCHANGED <<out, memo, scratch, tcache, pool, buf>>
           [] op = "score" ->
                /\ out' = [out EXCEPT ![g] = Append(out[g], "score-ok")]
                /\ memo' = IF Variant = "MemoScore" THEN memo \cup {"k"} ELSE memo
                /\ pc' = [pc EXCEPT ![g] = pc[g] + 1]
-               /\ UNCHANGED <<tok, names, dup, tableInit, scratch>>
-          [] op = "encode" ->
-               \* with a shared scratch buffer the text is garbled when another goroutine took the buffer meanwhile
-               /\ out' = [out EXCEPT ![g] = Append(out[g], IF Variant = "SharedScratch" /\ scratch # g THEN "garbled" ELSE "encoding-ok")]
+               /\ UNCHANGED <<tok, names, dup, tableInit, scratch, tcache, pool, buf>>
+          [] op \in {"encode", "encodebad"} ->
+               \* with a shared scratch buffer, or a pool buffer another goroutine holds too, the text is garbled
+               /\ out' = [out EXCEPT ![g] = Append(out[g],
+                                IF (Variant = "SharedScratch" /\ scratch # g)
+                                   \/ (Variant = "PoolDoublePut" /\ \E h \in G \ {g} : buf[h] = buf[g] /\ buf[g] # 0)
+                                THEN "garbled" ELSE (IF op = "encode" THEN "encoding-ok" ELSE "encoding-error"))]
                /\ pc' = [pc EXCEPT ![g] = pc[g] + 1]
-               /\ UNCHANGED <<tok, names, dup, tableInit, memo, scratch>>
+               \* give the buffer back; the deviation's error path gives it back twice
+               /\ IF Variant = "PoolDoublePut"
+                    THEN /\ pool' = (IF op = "encodebad" THEN <<buf[g], buf[g]>> ELSE <<buf[g]>>) \o pool
+                         /\ buf' = [buf EXCEPT ![g] = 0]
+                    ELSE UNCHANGED <<pool, buf>>
+               /\ UNCHANGED <<tok, names, dup, tableInit, memo, scratch, tcache>>
+          [] op = "export" ->
+               \* with the template cache the export may execute the template another goroutine parsed
+               /\ out' = [out EXCEPT ![g] = Append(out[g], IF Variant = "TemplateCache" /\ tcache # g THEN "foreign-template" ELSE "export-ok")]
+               /\ pc' = [pc EXCEPT ![g] = pc[g] + 1]
+               /\ UNCHANGED <<tok, names, dup, tableInit, memo, scratch, tcache, pool, buf>>
   /\ phase' = [phase EXCEPT ![g] = "idle"]
   /\ acc' = [acc EXCEPT ![g] = {}]
   /\ UNCHANGED race
@@ -103,7 +135,7 @@ Done == \A g \in G : pc[g] > Len(Progs[g])
 (***************************************************************************)
 NoDataRace == ~race
 \* every result equals the sequential one: no spurious same-metric error, right outputs
-SequentialResults == Done => \A g \in G : ~dup[g] /\ out[g] = <<"score-ok", "encoding-ok">>
+SequentialResults == Done => \A g \in G : ~dup[g] /\ out[g] = (IF g = "g1" THEN <<"encoding-error">> ELSE <<>>) \o <<"score-ok", "encoding-ok", "export-ok">>
 \* nobody writes the package-level state or the shared object
-SharedStateConstant == memo = {} /\ scratch = "none"
+SharedStateConstant == memo = {} /\ scratch = "none" /\ tcache = "none"
 =============================================================================
